@@ -184,34 +184,41 @@ def run_session(ctx, fzf, sid, lines, sched, steps, extra_args=(), width=70, hei
         tr = list(s.trace())
         s.post("abort", final=True)
         s.wait_exit()
-        return tr, st, {c: k for k, c in cmds.items()}
+        sync = {}
+        for st_ in steps:
+            for k in cmds:
+                if "RELOADSYNC%d" % k in st_["post"]:
+                    sync[k] = True
+        return tr, st, {c: (k, sync.get(k, False)) for k, c in cmds.items()}
     finally:
         s.close()
 
 
 def project(trace, get, sid, cmdmap=None):
-    """Hook trace -> Trace_Pipeline events; returns (events, oracle_keys, info) where info maps a revision "M.m" to
-    (input number, excluded item indices, --nth expression): input number -1 = the initial input, k = reload command k.
-    NOTE the --nth expression survives a reload (it is the coordinator's variable), exclusions do not."""
+    """Hook trace -> Trace_Pipeline events; returns (events, oracle_keys, cfgs).  Every `reset` event is annotated with
+    cfg = index into cfgs of the configuration its pattern/snapshot was built under: (input number of the snapshot's major
+    revision (-1 = initial input, k = reload command k), excluded item indices in effect, --nth expression in effect), and
+    pcfg = the configuration before the latest exclusion (for the named deviation StaleChunkCache), or -1.
+    The exclusion list and nth are the coordinator's own state: exclusions are cleared by a reload (at restart, or for
+    reload-sync when the new input is complete), nth survives; a request issued right after a reload may still carry the
+    OLD snapshot (old revision) together with the NEW (empty) exclusion list."""
     evs = [{"ev": "start", "sid": sid}]
     keys = set()
     cmdmap = cmdmap or {}
     major_input = {0: -1}
-    bumps = {0: []}         # per major revision: the revision bumps in order, each (excluded ids, nth expression or "")
-    cur_major = 0
+    denied, prev_denied, nth = [], None, ""
+    pending_sync_clear = False
+    cfgs = []
 
-    def info_of(rev):
-        ids, nth = [], ""
-        for deny, expr in bumps.get(rev[0], [])[:rev[1]]:
-            ids += [i for i in deny if i not in ids]
-            if expr:
-                nth = expr
-        return (major_input.get(rev[0], -1), ids, nth)
-    info = {}
+    def cfg_index(c):
+        if c not in cfgs:
+            cfgs.append(c)
+        return cfgs.index(c)
 
     def req(e):
         return {"q": e["q"], "count": e["count"], "final": e["final"], "sort": e["sort"], "rev": e["rev"]}
     saw = []
+    last_cfg = 0
     for e in trace:
         k = e["ev"]
         if k == "match.slot":
@@ -220,37 +227,46 @@ def project(trace, get, sid, cmdmap=None):
             evs.append(dict(req(e), ev="pick", saw=saw, seq=e["seq"]))
             saw = []
         elif k == "coord.restart":
-            cur_major = e["rev"][0]
             if e["command"] not in cmdmap:
                 raise Infra("restart with an unknown command %r" % e["command"])
-            major_input[cur_major] = cmdmap[e["command"]]
-            bumps[cur_major] = []
+            kk, sync = cmdmap[e["command"]]
+            major_input[e["rev"][0]] = kk
+            if sync:
+                pending_sync_clear = True
+            else:
+                denied, prev_denied = [], None
+        elif k == "coord.read":
+            if e.get("fin") and pending_sync_clear:
+                denied, prev_denied = [], None
+                pending_sync_clear = False
         elif k == "coord.bump":
-            bumps.setdefault(cur_major, []).append((list(e.get("deny") or []) if e.get("compatible", True) else [], e.get("nth") or ""))
+            if e.get("compatible", True) and e.get("deny"):
+                prev_denied = list(denied)
+                denied = denied + [i for i in e["deny"] if i not in denied]
+            if e.get("nth"):
+                nth = e["nth"]
         elif k == "match.reset":
-            evs.append(dict(req(e), ev="reset", cancel=e["cancel"], seq=e["seq"]))
+            inp = major_input.get(e["rev"][0], -1)
+            c = cfg_index((inp, tuple(denied), nth))
+            pc = cfg_index((inp, tuple(prev_denied), nth)) if prev_denied is not None else -1
+            last_cfg = c
+            evs.append(dict(req(e), ev="reset", cancel=e["cancel"], cfg=c, pcfg=pc, seq=e["seq"]))
+            keys.add((e["q"], e["count"], e["sort"], c))
+            if pc >= 0:
+                keys.add((e["q"], e["count"], e["sort"], pc))
         elif k in ("match.cachehit", "match.cancelled"):
             evs.append(dict(req(e), ev=k.split(".")[1], seq=e["seq"]))
         elif k == "match.publish":
             evs.append(dict(req(e), ev="publish", res=ev_res(e), seq=e["seq"]))
-            keys.add((e["q"], e["count"], e["sort"], "%d.%d" % tuple(e["rev"])))
-            info["%d.%d" % tuple(e["rev"])] = info_of(e["rev"])
-            if e["rev"][1] > 0:     # for the named deviation StaleChunkCache: the result of the previous exclusion generation
-                prev = [e["rev"][0], e["rev"][1] - 1]
-                keys.add((e["q"], e["count"], e["sort"], "%d.%d" % tuple(prev)))
-                info["%d.%d" % tuple(prev)] = info_of(prev)
         elif k == "term.list":
             evs.append({"ev": "list", "res": ev_res(e), "n": e["n"], "seq": e["seq"]})
         elif k == "term.loop":
             evs.append({"ev": "query", "q": e["input"], "seq": e["seq"]})
     ids = [m["index"] for m in get["matches"]]
-    resets = [e for e in evs if e["ev"] == "reset"]
-    last_rev = "%d.%d" % tuple(resets[-1]["rev"]) if resets else "0.0"
     evs.append({"ev": "end", "q": get["query"], "total": get["totalCount"], "sort": get["sort"], "getres": fnv_res(ids),
                 "matchCount": get["matchCount"]})
-    keys.add((get["query"], get["totalCount"], get["sort"], last_rev))
-    info[last_rev] = info_of([int(x) for x in last_rev.split(".")])
-    return evs, keys, info
+    keys.add((get["query"], get["totalCount"], get["sort"], last_cfg))
+    return evs, keys, cfgs
 
 
 def oracle(fzf, lines, q, n, sort, extra_args=(), excluded=(), nth=""):
@@ -270,5 +286,5 @@ def oracle(fzf, lines, q, n, sort, extra_args=(), excluded=(), nth=""):
     return fnv_res(ids)
 
 
-def okey(sid, q, n, sort, rev="0.0"):
-    return "%d|%s|%d|%s|%s" % (sid, q, n, "s" if sort else "u", rev)
+def okey(sid, q, n, sort, cfg=0):
+    return "%d|%s|%d|%s|%d" % (sid, q, n, "s" if sort else "u", cfg)
